@@ -100,6 +100,8 @@ pub struct Program {
     pub two_parents: bool,
     /// cells of at least 2x2 get a stepped (L-shaped) outline with the same bounding box
     pub stepped: bool,
+    /// the parent cells are not listed in the library: only a `top` cell that instantiates them is
+    pub top_only: bool,
 }
 
 impl Program {
@@ -156,7 +158,7 @@ impl Program {
                 "inner_array": a.inner.as_ref().map(|(c, p)| json!({"count": c, "pitch_xy": [p.0, p.1]})), "innermost_array": a.inner2.as_ref().map(|(c, p)| json!({"count": c, "pitch_xy": [p.0, p.1]})), "reflect_horiz": a.rh, "reflect_vert": a.rv, "loc": [a.at.0, a.at.1]}))
             .collect();
         let cells: Vec<Value> = self.cells.iter().enumerate().map(|(i, c)| json!({"name": format!("c{i}"), "outline_rect": [c.0, c.1]})).collect();
-        json!({"cells": cells, "instances": insts, "arrays": arrays, "parent_listed_first": self.parent_first, "two_parent_cells_second_moved_by_31_-17_and_with_an_abstract_view": self.two_parents, "stepped_outlines_same_bounding_box": self.stepped})
+        json!({"cells": cells, "instances": insts, "arrays": arrays, "parent_listed_first": self.parent_first, "two_parent_cells_second_moved_by_31_-17_and_with_an_abstract_view": self.two_parents, "stepped_outlines_same_bounding_box": self.stepped, "parents_not_listed_only_a_top_cell_instantiating_them": self.top_only})
     }
 }
 
@@ -328,7 +330,18 @@ pub fn run_program(p: &Program, listing: &[usize]) -> Result<Vec<ParentSeen>, St
         }
         parents.push(Ptr::new(c));
     }
-    if p.parent_first {
+    if p.top_only {
+        // only the leaf cells and a top cell are listed; the parents are reached through the top cell's instances
+        let mut top = Layout::new("top", 0, Outline::rect(1000, 1000).map_err(|e| format!("setup: {e:?}"))?);
+        for (pi, pp) in parents.iter().enumerate() {
+            top.instances.add(Instance { inst_name: format!("ip{pi}"), cell: pp.clone(), loc: Place::Abs(Xy::from((300 * pi as isize, 0isize))), reflect_horiz: false, reflect_vert: false });
+        }
+        for c in &cellptrs {
+            lib.cells.push(c.clone());
+        }
+        let tc: tetris::cell::Cell = top.into();
+        lib.cells.push(Ptr::new(tc));
+    } else if p.parent_first {
         for pp in &parents {
             lib.cells.push(pp.clone());
         }
@@ -344,6 +357,7 @@ pub fn run_program(p: &Program, listing: &[usize]) -> Result<Vec<ParentSeen>, St
         }
     }
     let stack = empty_stack().map_err(|e| format!("setup: {e}"))?;
+    let parents_kept: Vec<Ptr<tetris::cell::Cell>> = parents.clone();
 
     let placed = Placer::place(lib, stack);
 
@@ -354,7 +368,10 @@ pub fn run_program(p: &Program, listing: &[usize]) -> Result<Vec<ParentSeen>, St
             for pi in 0..nparents {
                 let want = format!("parent{pi}");
                 let mut found = None;
-                for cp in lib.cells.iter() {
+                // the placed library's own cells, or (parents not listed) the cells the harness still points to:
+                // placement happens in place, the pointers are shared
+                let pool: Vec<Ptr<tetris::cell::Cell>> = if p.top_only { parents_kept.clone() } else { lib.cells.iter().cloned().collect() };
+                for cp in pool.iter() {
                     let c = cp.read().map_err(|_| "readback: lock".to_string())?;
                     if c.name == want {
                         let lay = c.layout.as_ref().ok_or("readback: parent lost its layout")?;
@@ -487,6 +504,7 @@ fn self_check() -> &'static Result<(), String> {
             insts: t.iter().map(|x| InstDef { cell: 0, rh: false, rv: false, loc: match x { None => Loc::Abs(0, 0), Some(k) => Loc::Rel { to: *k, side: S::Right, align: S::Bottom, sep: Sep::None } } }).collect(),
             arrays: vec![],
             stepped: false,
+            top_only: false,
             parent_first: false,
             two_parents: false,
         };
@@ -817,6 +835,7 @@ impl CaseDriver for Pair {
         let stepped = c.flag("stepped-outlines");
         Program {
             stepped,
+            top_only: false,
             cells: PAIR_CELLS.to_vec(),
             insts: vec![
                 InstDef { cell: rs, rh: rr.0, rv: rr.1, loc: Loc::Abs(rl.0, rl.1) },
@@ -898,7 +917,9 @@ impl CaseDriver for Graph {
         }
         let stepped = c.cost(2, "stepped-outlines") == 1;
         let two_parents = c.cost(2, "two-parents") == 1;
-        Program { cells: GRAPH_CELLS.to_vec(), insts, arrays: vec![], parent_first: false, two_parents, stepped }
+        // the parents reachable only through a `top` cell (costed)
+        let top_only = c.cost(2, "parents-unlisted-below-a-top-cell") == 1;
+        Program { cells: GRAPH_CELLS.to_vec(), insts, arrays: vec![], parent_first: false, two_parents, stepped, top_only }
     }
     fn check(&self, p: &Program, key: &str, cx: &mut Cx) {
         let nrel = p.insts.iter().filter(|d| matches!(d.loc, Loc::Rel { .. })).count();
@@ -968,11 +989,14 @@ impl CaseDriver for Arr {
         1
     }
     fn gen(&self, t: Tier, c: &mut Chooser) -> Program {
-        let count = 1 + c.free(t.pick(3, 4), "count");
+        // (count 0: an array of nothing)
+        let count = [1usize, 2, 3, 0, 4][c.free(t.pick(4, 5), "count")];
         let pitch = PITCHES[c.free(4, "pitch")];
         let r = REFL[c.free(4, "refl")];
         let nested = c.free(13, "unit");
         let inner = if nested == 0 { None } else { Some((1 + (nested - 1) / 4, PITCHES[(nested - 1) % 4])) };
+        // an inner array of count 0 (costed): the whole array then has no children
+        let inner = if inner.is_some() && c.cost(2, "inner-count-zero") == 1 { inner.map(|(_, pp)| (0usize, pp)) } else { inner };
         let at = [(9, 13), (-5, -8), (0, 0), (0, 20), (30, 0)][c.free(5, "origin")];
         let with_insts = c.flag("with-instances");
         let cell = c.free(2, "cell");
@@ -995,7 +1019,7 @@ impl CaseDriver for Arr {
         } else {
             None
         };
-        Program { cells: GRAPH_CELLS.to_vec(), insts, arrays: vec![ArrayDef { cell, count, pitch, inner, inner2, rh: r.0, rv: r.1, at }], parent_first: false, two_parents, stepped }
+        Program { cells: GRAPH_CELLS.to_vec(), insts, arrays: vec![ArrayDef { cell, count, pitch, inner, inner2, rh: r.0, rv: r.1, at }], parent_first: false, two_parents, stepped, top_only: false }
     }
     fn check(&self, p: &Program, key: &str, cx: &mut Cx) {
         let a = &p.arrays[0];
@@ -1026,11 +1050,67 @@ impl CaseDriver for Arr {
     fn guards(&self, _t: Tier, stats: &Stats, _d: u64) -> Result<(), String> {
         require_tags(
             stats,
-            &["array-refl:none", "array-refl:h", "array-refl:v", "array-refl:hv", "array:nested", "array:three-levels", "array:flat", "array-count:1", "array-count:2", "array-count:3", "array-pitch:x", "array-pitch:y", "array-pitch:xy"],
+            &["array-refl:none", "array-refl:h", "array-refl:v", "array-refl:hv", "array:nested", "array:three-levels", "array:flat", "array-count:0", "array-count:1", "array-count:2", "array-count:3", "array-pitch:x", "array-pitch:y", "array-pitch:xy"],
         )
     }
     fn unit_target(&self, _t: Tier) -> usize {
         128
+    }
+}
+
+
+// ---------------------------------------------------------------------------------------------
+// Part (d): long relation graphs (dozens to hundreds of instances)
+// ---------------------------------------------------------------------------------------------
+
+pub struct Long;
+const LONG_SHAPES: [&str; 4] = ["chain", "star-on-the-first", "binary-tree", "chain-closed-into-a-ring"];
+const LONG_SIZES: [usize; 4] = [64, 65, 66, 130];
+impl CaseDriver for Long {
+    type Case = (usize, Program);
+    fn id(&self) -> &'static str {
+        "C09"
+    }
+    fn describe(&self, _t: Tier) -> Describe {
+        describe_with(format!(
+            "long relation graphs: shape {LONG_SHAPES:?} x {LONG_SIZES:?} instances (each placed right of / on top of its reference, alternating, separated by 1 pitch), every program run under the listings ascending, descending, rotated by a third and evens-then-odds, locations compared across listings and judged instance by instance; the ring must be reported as an error. State = one program; non-trivial = all.",
+        ))
+    }
+    fn bound(&self, _t: Tier) -> usize {
+        0
+    }
+    fn gen(&self, _t: Tier, c: &mut Chooser) -> (usize, Program) {
+        let shape = c.free(LONG_SHAPES.len(), "shape");
+        let n = LONG_SIZES[c.free(LONG_SIZES.len(), "size")];
+        let mut insts = vec![InstDef { cell: 0, rh: false, rv: false, loc: Loc::Abs(10, 20) }];
+        for i in 1..n {
+            let to = match shape {
+                0 | 3 => i - 1,
+                1 => 0,
+                _ => (i - 1) / 2,
+            };
+            let (side, align) = if i % 2 == 0 { (S::Right, S::Bottom) } else { (S::Top, S::Left) };
+            insts.push(InstDef { cell: i % 2, rh: i % 3 == 0, rv: i % 5 == 0, loc: Loc::Rel { to, side, align, sep: Sep::Pitches(1) } });
+        }
+        if shape == 3 {
+            insts[0].loc = Loc::Rel { to: n - 1, side: S::Right, align: S::Bottom, sep: Sep::None };
+        }
+        (shape, Program { cells: GRAPH_CELLS.to_vec(), insts, arrays: vec![], parent_first: false, two_parents: false, stepped: false, top_only: false })
+    }
+    fn check(&self, case: &(usize, Program), key: &str, cx: &mut Cx) {
+        let p = &case.1;
+        let n = p.insts.len();
+        cx.state(hash_debug(p), true);
+        cx.tag(&format!("long:{}", LONG_SHAPES[case.0]));
+        let listings: Vec<Vec<usize>> = vec![(0..n).collect(), (0..n).rev().collect(), (0..n).map(|i| (i + n / 3) % n).collect(), (0..n).step_by(2).chain((1..n).step_by(2)).collect()];
+        check_program(p, &listings, key, cx);
+    }
+    fn render(&self, case: &(usize, Program)) -> Value {
+        json!({"shape": LONG_SHAPES[case.0], "instances": case.1.insts.len()})
+    }
+    fn guards(&self, _t: Tier, stats: &Stats, _d: u64) -> Result<(), String> {
+        require_tags(stats, &["long:chain", "long:star-on-the-first", "long:binary-tree", "long:chain-closed-into-a-ring"])?;
+        require_outcomes(stats, &["ok", "err-cyclic"])
     }
 }
 
@@ -1042,6 +1122,7 @@ pub fn driver() -> Box<dyn Driver> {
             ("graph", Box::new(ByCase(Graph { nmin: 1, nmax: 3, bound_quick: 3, bound_thorough: 4, tagp: "" }))),
             ("graph4", Box::new(ByCase(Graph { nmin: 4, nmax: 4, bound_quick: 1, bound_thorough: 3, tagp: "g4-" }))),
             ("array", Box::new(ByCase(Arr))),
+            ("long", Box::new(ByCase(Long))),
         ],
     })
 }
